@@ -53,6 +53,24 @@ Proof.
   destruct (guarded s); [discriminate | reflexivity].
 Qed.
 
+(* ---- the generated table (these are the proofs that break when a NULL check disappears from the C sources) *)
+Lemma table_wellformed :
+  nodup_keys nil sites = true /\ length sites = n_sites /\ 200 <= n_sites /\ known_open_are_unguarded_sites = true.
+Proof. vm_compute. repeat split; try reflexivity. repeat constructor. Qed.
+
+Lemma sites_guarded : forallb guarded checked_sites = true.
+Proof. vm_compute. reflexivity. Qed.
+
+Lemma no_site_faults : forall s, In s sites -> known_open s = false -> alloc_failure_clean s.
+Proof.
+  intros s Hin Hk. apply (forallb_guarded_all checked_sites sites_guarded).
+  unfold checked_sites. apply filter_In. split; [assumption | rewrite Hk; reflexivity].
+Qed.
+
+Lemma known_open_sites_fault : forall s, In s sites -> known_open s = true ->
+  exists k, run_site s None = Fault k.
+Proof. apply open_sites_fault. vm_compute. reflexivity. Qed.
+
 (* non-vacuity: both classes are inhabited in the model *)
 Example ex_guarded : guarded (mkSite "f.c:f#1" "f.c" "f" 1 1%N "psMalloc" "p" (GuardedBeforeUse GTest) false []) = true.
 Proof. reflexivity. Qed.
